@@ -88,6 +88,9 @@ SizeThm.vos SizeThm.vok SizeThm.required_vos: SizeThm.v Base.vos Units.vos Units
 HistoryThm.vo HistoryThm.glob HistoryThm.v.beautified HistoryThm.required_vo: HistoryThm.v Base.vo Units.vo UnitsThm.vo Contents.vo Container.vo ContainerThm.vo ContainerThm2.vo Dilute.vo Solve.vo Plate.vo PlateThm.vo Prog.vo
 HistoryThm.vio: HistoryThm.v Base.vio Units.vio UnitsThm.vio Contents.vio Container.vio ContainerThm.vio ContainerThm2.vio Dilute.vio Solve.vio Plate.vio PlateThm.vio Prog.vio
 HistoryThm.vos HistoryThm.vok HistoryThm.required_vos: HistoryThm.v Base.vos Units.vos UnitsThm.vos Contents.vos Container.vos ContainerThm.vos ContainerThm2.vos Dilute.vos Solve.vos Plate.vos PlateThm.vos Prog.vos
+CsfThm.vo CsfThm.glob CsfThm.v.beautified CsfThm.required_vo: CsfThm.v Base.vo Units.vo UnitsThm.vo Contents.vo Container.vo ContainerThm.vo ContainerThm2.vo Plate.vo PlateThm.vo SizeThm.vo Dilute.vo Solve.vo SolveThm.vo
+CsfThm.vio: CsfThm.v Base.vio Units.vio UnitsThm.vio Contents.vio Container.vio ContainerThm.vio ContainerThm2.vio Plate.vio PlateThm.vio SizeThm.vio Dilute.vio Solve.vio SolveThm.vio
+CsfThm.vos CsfThm.vok CsfThm.required_vos: CsfThm.v Base.vos Units.vos UnitsThm.vos Contents.vos Container.vos ContainerThm.vos ContainerThm2.vos Plate.vos PlateThm.vos SizeThm.vos Dilute.vos Solve.vos SolveThm.vos
 Props/C06.vo Props/C06.glob Props/C06.v.beautified Props/C06.required_vo: Props/C06.v Base.vo Units.vo UnitsThm.vo GenBase.vo gen/UnitsGen.vo UnitsGenOK.vo
 Props/C06.vio: Props/C06.v Base.vio Units.vio UnitsThm.vio GenBase.vio gen/UnitsGen.vio UnitsGenOK.vio
 Props/C06.vos Props/C06.vok Props/C06.required_vos: Props/C06.v Base.vos Units.vos UnitsThm.vos GenBase.vos gen/UnitsGen.vos UnitsGenOK.vos
@@ -112,9 +115,9 @@ Props/C10.vos Props/C10.vok Props/C10.required_vos: Props/C10.v Base.vos Units.v
 Props/C11.vo Props/C11.glob Props/C11.v.beautified Props/C11.required_vo: Props/C11.v Base.vo Units.vo UnitsThm.vo Contents.vo Container.vo ContainerThm.vo ContainerThm2.vo Dilute.vo DiluteThm.vo
 Props/C11.vio: Props/C11.v Base.vio Units.vio UnitsThm.vio Contents.vio Container.vio ContainerThm.vio ContainerThm2.vio Dilute.vio DiluteThm.vio
 Props/C11.vos Props/C11.vok Props/C11.required_vos: Props/C11.v Base.vos Units.vos UnitsThm.vos Contents.vos Container.vos ContainerThm.vos ContainerThm2.vos Dilute.vos DiluteThm.vos
-Props/C12.vo Props/C12.glob Props/C12.v.beautified Props/C12.required_vo: Props/C12.v Base.vo Solve.vo
-Props/C12.vio: Props/C12.v Base.vio Solve.vio
-Props/C12.vos Props/C12.vok Props/C12.required_vos: Props/C12.v Base.vos Solve.vos
+Props/C12.vo Props/C12.glob Props/C12.v.beautified Props/C12.required_vo: Props/C12.v Base.vo Units.vo UnitsThm.vo Contents.vo Container.vo ContainerThm.vo ContainerThm2.vo Dilute.vo Solve.vo SolveThm.vo CsfThm.vo HistoryThm.vo
+Props/C12.vio: Props/C12.v Base.vio Units.vio UnitsThm.vio Contents.vio Container.vio ContainerThm.vio ContainerThm2.vio Dilute.vio Solve.vio SolveThm.vio CsfThm.vio HistoryThm.vio
+Props/C12.vos Props/C12.vok Props/C12.required_vos: Props/C12.v Base.vos Units.vos UnitsThm.vos Contents.vos Container.vos ContainerThm.vos ContainerThm2.vos Dilute.vos Solve.vos SolveThm.vos CsfThm.vos HistoryThm.vos
 Props/C17.vo Props/C17.glob Props/C17.v.beautified Props/C17.required_vo: Props/C17.v Base.vo Units.vo Contents.vo Container.vo ContainerThm.vo ContainerThm2.vo Plate.vo PlateThm.vo
 Props/C17.vio: Props/C17.v Base.vio Units.vio Contents.vio Container.vio ContainerThm.vio ContainerThm2.vio Plate.vio PlateThm.vio
 Props/C17.vos Props/C17.vok Props/C17.required_vos: Props/C17.v Base.vos Units.vos Contents.vos Container.vos ContainerThm.vos ContainerThm2.vos Plate.vos PlateThm.vos
